@@ -350,6 +350,11 @@ fn simple_op(db: &Database, ks: &HashMap<String, Keyspace>, t: &[&str]) -> Optio
             })()),
             None => "err:NoKs".into(),
         },
+        "mkks" => match db.keyspace(a[0], fjall::KeyspaceCreateOptions::default) {
+            // open-or-create from any thread; answers the directory of the keyspace (= its id)
+            Ok(k) => format!("ok {}", k.path().file_name().map(|x| x.to_string_lossy().to_string()).unwrap_or_default()),
+            Err(e) => format!("err:{}", errname(&e)),
+        },
         "persist" => res(&db.persist(persist_mode(a[0]))),
         "get" => match k(a[0]) {
             Some(k) => match k.get(unhex(a[1])) {
@@ -820,6 +825,26 @@ fn main() {
                 threads.insert(tid, h);
                 "ok".into()
             }
+            "hinsert" | "hremove" | "hremove_weak" | "htake" => {
+                // single-operation helpers of the transactional keyspaces (they run their own write transaction)
+                let key = unhex(a[1]);
+                let val = a.get(2).map(|x| unhex(x)).unwrap_or_default();
+                match w.ks.get(a[0]) {
+                    Some(Ks::Opt(k)) => match t[0] {
+                        "hinsert" => res(&k.insert(key, val)),
+                        "hremove" => res(&k.remove(key)),
+                        "hremove_weak" => res(&k.remove_weak(key)),
+                        _ => match k.take(key) { Ok(Some(v)) => format!("some:{}", hex(&v)), Ok(None) => "none".into(), Err(e) => format!("err:{}", errname(&e)) },
+                    },
+                    Some(Ks::Single(k)) => match t[0] {
+                        "hinsert" => res(&k.insert(key, val)),
+                        "hremove" => res(&k.remove(key)),
+                        "hremove_weak" => res(&k.remove_weak(key)),
+                        _ => match k.take(key) { Ok(Some(v)) => format!("some:{}", hex(&v)), Ok(None) => "none".into(), Err(e) => format!("err:{}", errname(&e)) },
+                    },
+                    _ => "err:NotTransactional".into(),
+                }
+            }
             "spawn_rmw" => {
                 // spawn_rmw <tid> <ks> <key> <n> [yield]: n read-modify-write transactions (counter += 1) on a transactional database
                 let tid = a[0].to_string();
@@ -965,7 +990,7 @@ fn main() {
                         }
                         Db::Plain(_) => "err:NotTransactional".into(),
                     },
-                    "insert" | "remove" | "remove_weak" | "take" | "fetch_update" | "update_fetch" => {
+                    "insert" | "remove" | "remove_weak" | "take" | "fetch_update" | "update_fetch" | "update_fetch_none" => {
                         let key = unhex(a[3]);
                         let val = a.get(4).map(|x| unhex(x)).unwrap_or_default();
                         if let Some(t) = w.otx.get_mut(&id) {
@@ -976,6 +1001,7 @@ fn main() {
                                 "remove_weak" => { t.remove_weak(k, key); "ok".into() }
                                 "take" => match t.take(k, key) { Ok(Some(v)) => format!("some:{}", hex(&v)), Ok(None) => "none".into(), Err(e) => format!("err:{}", errname(&e)) },
                                 "fetch_update" => match t.fetch_update(k, key, |_| Some(val.clone().into())) { Ok(Some(v)) => format!("some:{}", hex(&v)), Ok(None) => "none".into(), Err(e) => format!("err:{}", errname(&e)) },
+                                "update_fetch_none" => match t.update_fetch(k, key, |_| None) { Ok(Some(v)) => format!("some:{}", hex(&v)), Ok(None) => "none".into(), Err(e) => format!("err:{}", errname(&e)) },
                                 _ => match t.update_fetch(k, key, |_| Some(val.clone().into())) { Ok(Some(v)) => format!("some:{}", hex(&v)), Ok(None) => "none".into(), Err(e) => format!("err:{}", errname(&e)) },
                             }
                         } else if let Some(t) = w.stx.get_mut(&id) {
@@ -986,6 +1012,7 @@ fn main() {
                                 "remove_weak" => { t.remove_weak(k, key); "ok".into() }
                                 "take" => match t.take(k, key) { Ok(Some(v)) => format!("some:{}", hex(&v)), Ok(None) => "none".into(), Err(e) => format!("err:{}", errname(&e)) },
                                 "fetch_update" => match t.fetch_update(k, key, |_| Some(val.clone().into())) { Ok(Some(v)) => format!("some:{}", hex(&v)), Ok(None) => "none".into(), Err(e) => format!("err:{}", errname(&e)) },
+                                "update_fetch_none" => match t.update_fetch(k, key, |_| None) { Ok(Some(v)) => format!("some:{}", hex(&v)), Ok(None) => "none".into(), Err(e) => format!("err:{}", errname(&e)) },
                                 _ => match t.update_fetch(k, key, |_| Some(val.clone().into())) { Ok(Some(v)) => format!("some:{}", hex(&v)), Ok(None) => "none".into(), Err(e) => format!("err:{}", errname(&e)) },
                             }
                         } else {
